@@ -1,7 +1,7 @@
 """C07 -- Documents violating a documented constraint are rejected on load."""
 from pyvc import verify
 from bounded import corrupt
-from .common import ctx, std
+from .common import ctx, std, contract_samples
 from .C06 import KINDS
 
 
@@ -31,6 +31,7 @@ def check(run):
     for k in ("io:common.MetadataBase.loads.validates", "io:common.MetadataBase.load"):
         if k in c.contracts:
             verify.verify(run, c.E, c.contracts[k])
+    contract_samples(run, c, ["de:treeinfo.BaseProduct", "de:treeinfo.Release", "de:treeinfo.Stage2", "de:treeinfo.Media"])
     nobj = 6 if run.tier == "quick" else 60
     per = 250 if run.tier == "quick" else 2000
     for kind in KINDS:
